@@ -30,6 +30,8 @@
 //!            is killed by the kernel (RLIMIT_FSIZE = N, SIGXFSZ) inside its rotation store at
 //!            byte N, for many N (thorough: every N); the parent loads what is left: it must be
 //!            rejected or be exactly the old set rotated once; a subset is restarted on
+//!   fifo     the key file is a FIFO: each store blocks until the harness reads it; every key set
+//!            published through the watch channel must already be in the last completed store
 //!   After every start on an existing path the file must be exactly the healthy image of
 //!   the key set in use (no stale tail: the daemon's store is truncate-then-write).
 use std::io::{BufReader, Cursor};
@@ -55,6 +57,8 @@ use crate::daemon::nts_key_provider;
 // ---------------------------------------------------------------------------------
 
 static PANICS: AtomicU64 = AtomicU64::new(0);
+/// number of starts after which the provider stored its file but did not publish a key set
+static NOT_PUBLISHED: AtomicU64 = AtomicU64::new(0);
 static LAST_PANIC: Mutex<String> = Mutex::new(String::new());
 
 fn install_panic_counter() {
@@ -133,7 +137,7 @@ async fn issue(rig: &Rig, keyset: Arc<KeySet>) -> Result<Session, String> {
     let server = rig.server.clone();
     let before = panics();
     let srv = tokio::spawn(async move { server.handle_connection(b, &keyset, || None::<()>).await.map(|_| ()) });
-    let res = tokio::time::timeout(Duration::from_secs(60), rig.client.exchange_keys(a, "localhost".to_string(), [])).await;
+    let res = tokio::time::timeout(Duration::from_secs(20), rig.client.exchange_keys(a, "localhost".to_string(), [])).await;
     let srv_res = srv.await;
     if srv_res.as_ref().is_err_and(|e| e.is_panic()) || panics() != before {
         return Err(format!("panic: NTS-KE connection task panicked while issuing cookies: {}", last_panic()));
@@ -292,15 +296,43 @@ async fn start(path: &Path, stale: usize, interval: usize) -> Result<Started, St
         key_rotation_interval: interval,
         key_storage_path: Some(path.to_str().unwrap().to_string()),
     };
-    let mut rx = match tokio::time::timeout(Duration::from_secs(60), nts_key_provider::spawn(config)).await {
+    let mtime0 = std::fs::metadata(path).and_then(|m| m.modified()).ok();
+    let mut rx = match tokio::time::timeout(Duration::from_secs(20), nts_key_provider::spawn(config)).await {
         Ok(rx) => rx,
-        Err(_) => return Err("hang: nts_key_provider::spawn did not return within 60 s".into()),
+        Err(_) => return Err("hang: nts_key_provider::spawn did not return within 20 s".into()),
     };
-    // the background thread stores first, then publishes: `changed` => the store was attempted
-    match tokio::time::timeout(Duration::from_secs(60), rx.changed()).await {
-        Ok(Ok(())) => {}
-        Ok(Err(_)) => return Err("crash: provider thread dropped the channel".into()),
-        Err(_) => return Err("hang: provider thread did not publish a key set within 60 s".into()),
+    // Start-up is through when the background thread has published (`changed`; on HEAD it stores
+    // first, then publishes) or, for a provider that does not publish after the start-up store,
+    // when the file was rewritten into a complete image. Dead-man 20 s: never a hang.
+    let t0 = Instant::now();
+    let mut stored_at: Option<Instant> = None;
+    loop {
+        match rx.has_changed() {
+            Ok(true) => break,
+            Ok(false) => {}
+            Err(_) => return Err("crash: provider thread dropped the channel".into()),
+        }
+        if stored_at.is_none() {
+            let m = std::fs::metadata(path).and_then(|m| m.modified()).ok();
+            if m.is_some() && m != mtime0 && file_image(path).is_ok() {
+                stored_at = Some(Instant::now());
+            }
+        }
+        let grace = if NOT_PUBLISHED.load(Ordering::SeqCst) == 0 { 1000 } else { 100 };
+        if stored_at.is_some_and(|t| t.elapsed() > Duration::from_millis(grace)) {
+            // stored, but nothing published afterwards: go on with the initial key set
+            NOT_PUBLISHED.fetch_add(1, Ordering::SeqCst);
+            break;
+        }
+        if t0.elapsed() > Duration::from_secs(if NOT_PUBLISHED.load(Ordering::SeqCst) == 0 { 20 } else { 3 }) {
+            if NOT_PUBLISHED.load(Ordering::SeqCst) > 0 {
+                // known non-publishing provider and a path that cannot be stored: nothing to wait for
+                NOT_PUBLISHED.fetch_add(1, Ordering::SeqCst);
+                break;
+            }
+            return Err("hang: provider thread neither published a key set nor stored the key file within 20 s".into());
+        }
+        tokio::time::sleep(Duration::from_millis(5)).await;
     }
     let keyset = rx.borrow_and_update().clone();
     let panicked = (panics() != before).then(last_panic);
@@ -547,7 +579,7 @@ async fn lowered_history_then_rotation(env: &Env<'_>, bytes: &[u8], sessions: &[
         match start(&path, 1, 1).await {
             Err(e) => ctx.violation("C27:daemon-start-fails", format!("lowered history: {e}"), trace),
             Ok(mut st) => {
-                match tokio::time::timeout(Duration::from_secs(30), st.rx.changed()).await {
+                match tokio::time::timeout(Duration::from_secs(20), st.rx.changed()).await {
                     Ok(Ok(())) => {
                         let k = st.rx.borrow_and_update().clone();
                         // the thread stores before it publishes: the file is at least as new as `k`.
@@ -590,14 +622,103 @@ async fn lowered_history_then_rotation(env: &Env<'_>, bytes: &[u8], sessions: &[
                                 result = obs.clone();
                                 ctx.distinct(common::hash_of(&trace));
                             }
-                            other => ctx.cap_hit(&format!("lowered-history scenario: expected exactly one rotation when the key set was read, the file shows {other:?} new keys; not judged")),
+                            other => { ctx.inc("unjudged_scenarios"); ctx.cap_hit(&format!("lowered-history scenario: expected exactly one rotation when the key set was read, the file shows {other:?} new keys; not judged")); }
                         }
                     }
-                    w => ctx.cap_hit(&format!("lowered-history scenario: no rotation observed within 30 s ({w:?}); not judged")),
+                    w => { ctx.inc("unjudged_scenarios"); ctx.cap_hit(&format!("lowered-history scenario: no rotation observed within 20 s ({w:?}); not judged")); }
                 }
             }
         }
     result
+}
+
+/// Order of store and publish: the key file is a FIFO, so every store of the provider thread
+/// blocks in `open` until the harness reads it; the bytes of the last completed store are "the
+/// disk". Oracle (statement: keys stored are restored on restart, so cookies issued before the
+/// restart stay valid): every key set that comes through the watch channel after start-up must
+/// already be on the disk, i.e. a cookie issued under it is accepted by the set loaded from the
+/// disk bytes. Every wait has a dead-man; machinery trouble is a cap, never a hang.
+async fn published_before_stored(env: &Env<'_>) {
+    let ctx = env.ctx;
+    let trace = "fifo;publish-order";
+    ctx.inc("evaluations");
+    ctx.inc("fifo_cases");
+    let unjudged = |why: String| {
+        ctx.inc("unjudged_scenarios");
+        ctx.cap_hit(&format!("publish-order scenario not judged: {why}"));
+    };
+    let path = env.path("fifo");
+    let made = std::process::Command::new("/usr/bin/mkfifo").arg("-m").arg("600").arg(&path).status().map(|s| s.success()).unwrap_or(false);
+    if !made {
+        return unjudged("mkfifo failed".into());
+    }
+    // the load at start-up opens the FIFO for reading: give it a writer that writes nothing
+    let p = path.clone();
+    std::thread::spawn(move || drop(std::fs::OpenOptions::new().write(true).open(p)));
+    let config = KeysetConfig { stale_key_count: 1, key_rotation_interval: 1, key_storage_path: Some(path.to_str().unwrap().to_string()) };
+    let mut rx = match tokio::time::timeout(Duration::from_secs(20), nts_key_provider::spawn(config)).await {
+        Ok(rx) => rx,
+        Err(_) => return unjudged("spawn did not return within 20 s".into()),
+    };
+    // read one complete store from the FIFO (blocks in a helper thread until the provider opens it)
+    async fn read_store(path: &Path) -> Option<Vec<u8>> {
+        let (tx, rx) = std::sync::mpsc::channel();
+        let p = path.to_path_buf();
+        std::thread::spawn(move || {
+            let _ = tx.send(std::fs::read(p));
+        });
+        let t0 = Instant::now();
+        while t0.elapsed() < Duration::from_secs(20) {
+            if let Ok(r) = rx.try_recv() {
+                return r.ok();
+            }
+            tokio::time::sleep(Duration::from_millis(5)).await;
+        }
+        None
+    }
+    let Some(mut disk) = read_store(&path).await else { return unjudged("start-up store never arrived".into()) };
+    let mut published = 0u64;
+    for round in 0..2 {
+        // the next store (of the rotated set) is blocked until we read again: watch what gets published
+        let t0 = Instant::now();
+        while t0.elapsed() < Duration::from_millis(if round == 0 { 2500 } else { 1000 }) {
+            if rx.has_changed().unwrap_or(false) {
+                let k = rx.borrow_and_update().clone();
+                published += 1;
+                let on_disk = match common::catch(|| KeySetProvider::load(&mut Cursor::new(&disk), 1)) {
+                    Ok(Ok((p, _))) => Some(p.get()),
+                    _ => None,
+                };
+                let ok = match (issue(&env.rig, k.clone()).await, &on_disk) {
+                    (Ok(s), Some(d)) => matches!(serve(d, &s, &s.cookies[0]), Served::Accepted(_)),
+                    (Ok(_), None) => false,
+                    (Err(e), _) => return unjudged(format!("cannot issue under the published set: {e}")),
+                };
+                if ok {
+                    ctx.inc("published_sets_already_stored");
+                } else {
+                    ctx.violation(
+                        "C27:published-before-stored",
+                        format!("publication #{published} ({k:?}) reached the watch channel while its store is still blocked: a cookie issued under it is not accepted by the key set on disk ({} bytes) - a crash now loses cookies issued before the restart", disk.len()),
+                        trace,
+                    );
+                }
+            }
+            tokio::time::sleep(Duration::from_millis(10)).await;
+        }
+        if round == 0 {
+            match read_store(&path).await {
+                Some(d) => disk = d,
+                None => return unjudged("the rotated set's store never arrived".into()),
+            }
+        }
+    }
+    ctx.set("fifo_publications_seen", published);
+    if published == 0 {
+        unjudged("nothing was published".into());
+    }
+    ctx.distinct(common::hash_of(&trace));
+    ctx.sample(format!("publish-order (FIFO as key file): {published} publications checked against the bytes of the last completed store"));
 }
 
 fn with_hdr(f: &[u8], time: Option<u64>, off: Option<u32>, primary: Option<u32>, len: Option<u32>) -> Vec<u8> {
@@ -689,7 +810,7 @@ async fn run_all(env: &Env<'_>, crash: &CrashData) {
             }
             Ok(mut st) => {
                 let s0 = use_keyset(&env.rig, &st.keyset).await;
-                let waited = tokio::time::timeout(Duration::from_secs(30), st.rx.changed()).await;
+                let waited = tokio::time::timeout(Duration::from_secs(20), st.rx.changed()).await;
                 match (s0, waited) {
                     (Ok(s0), Ok(Ok(()))) => {
                         let k1 = st.rx.borrow_and_update().clone();
@@ -712,7 +833,7 @@ async fn run_all(env: &Env<'_>, crash: &CrashData) {
                         }
                     }
                     (Err(e), _) => ctx.violation("C27:loaded-set-unusable", format!("rotate: first key set: {e}"), "rotate;live"),
-                    (_, w) => ctx.cap_hit(&format!("rotate scenario: no rotation observed within 30 s ({w:?}); not judged")),
+                    (_, w) => { ctx.inc("unjudged_scenarios"); ctx.cap_hit(&format!("rotate scenario: no rotation observed within 20 s ({w:?}); not judged")); }
                 }
             }
         }
@@ -861,6 +982,9 @@ async fn run_all(env: &Env<'_>, crash: &CrashData) {
         }
     }
 
+    // ---- store-before-publish order ----
+    published_before_stored(env).await;
+
     // let the 1 s-interval provider thread of the rotate scenario finish its last round
     let since = env.live.get().map_or(rotate_done, |l| l.max(rotate_done)).elapsed();
     if since < Duration::from_millis(2500) {
@@ -908,6 +1032,11 @@ async fn replay_one(env: &Env<'_>, trace: &str) -> String {
             let (bytes, sessions) = healthy(env, 2, 3).await;
             let old: Vec<(Option<bool>, &Session)> = sessions.iter().map(|(r, s)| (Some(3 - r <= 2), s)).collect();
             file_case(env, "restart", "replay", Some(&bytes), 2, &old, Expect::Restored).await
+        }
+        "fifo" => {
+            let (a0, v0) = (env.ctx.get("published_sets_already_stored"), env.ctx.violation_count());
+            published_before_stored(env).await;
+            format!("publications={} already_stored={} violations={}", env.ctx.get("fifo_publications_seen"), env.ctx.get("published_sets_already_stored") - a0, env.ctx.violation_count() - v0)
         }
         "dcrash" => {
             let parts: Vec<&str> = name.split(';').collect();
@@ -995,7 +1124,7 @@ fn run_crash_child(dir: &Path, s: usize, n: u64, base: &[u8]) -> CrashOutcome {
     let status = loop {
         match child.try_wait() {
             Ok(Some(st)) => break Some(st),
-            Ok(None) if t0.elapsed() > Duration::from_secs(90) => {
+            Ok(None) if t0.elapsed() > Duration::from_secs(40) => {
                 let _ = child.kill();
                 let _ = child.wait();
                 break None;
@@ -1005,7 +1134,7 @@ fn run_crash_child(dir: &Path, s: usize, n: u64, base: &[u8]) -> CrashOutcome {
         }
     };
     match status {
-        None => out.machinery = Some("child did not finish within 90 s".into()),
+        None => out.machinery = Some("child did not finish within 40 s".into()),
         Some(st) => {
             use std::os::unix::process::ExitStatusExt;
             out.signal = st.signal();
@@ -1213,11 +1342,23 @@ fn child() {
             key_rotation_interval: CHILD_INTERVAL_S,
             key_storage_path: Some(keys.to_str().unwrap().to_string()),
         };
-        let mut rx = nts_key_provider::spawn(config).await;
-        // start-up store done; the provider thread now sleeps one full interval
-        if !matches!(tokio::time::timeout(Duration::from_secs(30), rx.changed()).await, Ok(Ok(()))) {
-            return 3;
+        let prepared = std::fs::read(&keys).unwrap_or_default();
+        let _rx = nts_key_provider::spawn(config).await;
+        // Start-up store done = the file is complete again and carries a new time stamp (the
+        // prepared one lies in the future). Deliberately NOT synchronised through the watch
+        // channel: whether and when the provider publishes must not matter here.
+        let t_start = Instant::now();
+        loop {
+            let now = std::fs::read(&keys).unwrap_or_default();
+            if now.len() == prepared.len() && now.len() >= 20 && now[..8] != prepared[..8] && now[8..] == prepared[8..] {
+                break;
+            }
+            if t_start.elapsed() > Duration::from_secs(15) {
+                return 3;
+            }
+            tokio::time::sleep(Duration::from_millis(5)).await;
         }
+        // the provider thread now sleeps one full interval
         let t0 = Instant::now();
         if std::fs::copy(&keys, dir.join("old")).is_err() {
             return 6;
@@ -1239,10 +1380,19 @@ fn child() {
             let _ = std::fs::File::create(dir.join("late"));
         }
         let _ = std::fs::File::create(dir.join("limited"));
-        // the rotation store: either the kernel kills us in it, or it completes and is published
-        match tokio::time::timeout(Duration::from_secs(30), rx.changed()).await {
-            Ok(Ok(())) => 0,
-            _ => 5,
+        // the rotation store: either the kernel kills us in it, or it completes (control):
+        // then the file is complete and holds a key that was not there before
+        let t_lim = Instant::now();
+        loop {
+            let now = std::fs::read(&keys).unwrap_or_default();
+            // (full key sets: the rotated image has the length of the prepared one)
+            if now.len() == prepared.len() && now.len() > 20 && now[20..] != prepared[20..] {
+                return 0;
+            }
+            if t_lim.elapsed() > Duration::from_secs(CHILD_INTERVAL_S as u64 + 12) {
+                return 5;
+            }
+            tokio::time::sleep(Duration::from_millis(10)).await;
         }
     });
     std::process::exit(code);
@@ -1301,7 +1451,15 @@ fn check() {
         std::thread::sleep(Duration::from_millis(200));
         let _ = std::fs::remove_dir_all(&dir);
     }
+    let unpublished = NOT_PUBLISHED.load(Ordering::SeqCst);
+    ctx.set("starts_without_publish_after_store", unpublished);
+    if unpublished > 0 {
+        ctx.cap_hit(&format!(
+            "{unpublished} starts: the provider stored its key file but published no key set afterwards (HEAD publishes after every store); \
+             those starts were synchronised on the file and judged with the initial key set; rotation-dependent scenarios may be unjudged"
+        ));
+    }
     // a crash case that could not be judged (machinery) leaves a hole in the enumeration
-    ctx.exhaustive(ctx.get("daemon_crash_machinery_errors") == 0);
+    ctx.exhaustive(ctx.get("daemon_crash_machinery_errors") == 0 && unpublished == 0 && ctx.get("unjudged_scenarios") == 0);
     ctx.finish();
 }
